@@ -44,9 +44,31 @@ package ipk
 //@     invariant [C07 C11 C12] plan-still-fresh: !inlined() || nfpm.SpecPlanOK(info.Contents, !old(info.MTime.IsZero()))
 //@     invariant [C01 C03 C08] plan-entries-complete: inlined() || files.SpecPlanInputOK(info.Contents, !old(info.MTime.IsZero()))
 //
+//@ spec func confLine(c *files.Content) string {
+//@     switch c.Type {
+//@     case "config", "config|noreplace", "config|missingok":
+//@         return files.NormalizeAbsoluteFilePath(c.Destination) + "\n"
+//@     }
+//@     return ""
+//@ }
+//
+//@ spec func confText(cs files.Contents, n int) string {
+//@     return foldStr(n, func(i int) string { return confLine(cs[i]) })
+//@ }
+//
+//@ spec func orNewline(s string) string {
+//@     if s == "" { return "\n" }
+//@     return s
+//@ }
+//
 //@ inline func conffiles(info *nfpm.Info) (result []byte)
-//@   loop 0 (confs []string)
+//@   requires [C08] info != nil && files.SpecContentsNonNil(info.Contents)
+//@   ensures [C08] config-files-and-only-those-in-plan-order: string(result) == orNewline(confText(info.Contents, len(info.Contents)))
+//@   loop 0 (iter int, confs []string)
 //@     invariant [C11 C12] accumulator-fresh: confs == nil || fresh(confs)
+//@     invariant [C08] lines-so-far: eachStr("", confs, "\n") == confText(info.Contents, iter)
+//@     invariant [C08] empty-iff-no-lines: (len(confs) == 0) == (confText(info.Contents, iter) == "")
+//@     invariant [C08] index-in-range: 0 <= iter && iter <= len(info.Contents)
 //
 //@ inline func stripDisallowedFields(info *nfpm.Info)
 //@   loop 0
